@@ -12,6 +12,7 @@ import (
 	"fmt"
 	"io"
 	"net"
+	"sync/atomic"
 	"time"
 
 	"compress/flate"
@@ -54,7 +55,7 @@ type msgWriter struct {
 
 	mu      *mu
 	writeMu *mu
-	closed  bool
+	closed  int32 // atomic: 1 once Close has been called for the current message
 
 	ctx    context.Context
 	opcode opcode
@@ -130,7 +131,7 @@ func (mw *msgWriter) reset(ctx context.Context, typ MessageType) error {
 	mw.ctx = ctx
 	mw.opcode = opcode(typ)
 	mw.flate = false
-	mw.closed = false
+	atomic.StoreInt32(&mw.closed, 0)
 
 	mw.trimWriter.reset()
 
@@ -165,6 +166,11 @@ func (mw *msgWriter) closeConnOnErr(err *error) {
 
 // Write writes the given bytes to the WebSocket connection.
 func (mw *msgWriter) Write(p []byte) (_ int, err error) {
+	if atomic.LoadInt32(&mw.closed) == 1 {
+		// Checked before anything else: a writer that is done must not touch the
+		// connection, whatever has become of its context in the meantime.
+		return 0, errWriterClosed
+	}
 	defer mw.closeConnOnErr(&err)
 
 	err = mw.writeMu.lock(mw.ctx)
@@ -173,7 +179,7 @@ func (mw *msgWriter) Write(p []byte) (_ int, err error) {
 	}
 	defer mw.writeMu.unlock()
 
-	if mw.closed {
+	if atomic.LoadInt32(&mw.closed) == 1 {
 		return 0, errWriterClosed
 	}
 
@@ -209,8 +215,13 @@ func (mw *msgWriter) write(p []byte) (int, error) {
 
 // Close flushes the frame to the connection.
 func (mw *msgWriter) Close() (err error) {
-	defer mw.closeConnOnErr(&err)
 	defer errd.Wrap(&err, "failed to close writer")
+
+	if atomic.LoadInt32(&mw.closed) == 1 {
+		// As in Write: closing a writer twice is only an error.
+		return errWriterAlreadyClosed
+	}
+	defer mw.closeConnOnErr(&err)
 
 	err = mw.writeMu.lock(mw.ctx)
 	if err != nil {
@@ -218,10 +229,9 @@ func (mw *msgWriter) Close() (err error) {
 	}
 	defer mw.writeMu.unlock()
 
-	if mw.closed {
+	if !atomic.CompareAndSwapInt32(&mw.closed, 0, 1) {
 		return errWriterAlreadyClosed
 	}
-	mw.closed = true
 
 	if mw.flate {
 		err = mw.flateWriter.Flush()
